@@ -24,6 +24,7 @@ static llvm::cl::list<std::string> RootsMangled("root-mangled", llvm::cl::desc("
 static llvm::cl::list<std::string> Outline("outline", llvm::cl::desc("<sanitised mangled name>#<loop ordinal>: also emit a step function for that loop"), llvm::cl::cat(Cat));
 static llvm::cl::list<std::string> TransparentRec("transparent-std-record", llvm::cl::desc("prefix of std record names lowered field by field"), llvm::cl::cat(Cat));
 static llvm::cl::list<std::string> TransparentFn("transparent-std-fn", llvm::cl::desc("prefix of qualified names of std functions lowered from their libstdc++ bodies"), llvm::cl::cat(Cat));
+static llvm::cl::list<std::string> VirtualRoots("virtual-root", llvm::cl::desc("qualified name of a virtual method for which a dynamic dispatcher is wanted by the harness"), llvm::cl::cat(Cat));
 static llvm::cl::opt<std::string> OutC("out", llvm::cl::desc("output C file"), llvm::cl::cat(Cat));
 static llvm::cl::opt<std::string> OutJson("json", llvm::cl::desc("output JSON index"), llvm::cl::cat(Cat));
 static llvm::cl::opt<bool> Catalogue("catalogue", llvm::cl::desc("emit the class catalogue into the JSON index"), llvm::cl::cat(Cat));
@@ -510,7 +511,8 @@ struct Lower {
     }
   }
   // call constructor CD on object at pointer-expression `ptr` with the arguments of CE (or forwarded params)
-  std::string ctorCall(const CXXConstructorDecl* CD, const std::string& ptr, const CXXConstructExpr* CE) {
+  std::string ctorCall(const CXXConstructorDecl* CD, const std::string& ptr, const CXXConstructExpr* CE, bool asBase = false) {
+    if (!asBase && CD->getParent()->getDefinition()->isPolymorphic() && !isOpaque(CD->getParent()->getDefinition())) clsId(CD->getParent());
     if (CD->isTrivial() && CE->getNumArgs() == 0) return "(void)0";
     if (CD->isCopyOrMoveConstructor() && CD->isTrivial()) return "(*(" + ptr + ") = " + ex(CE->getArg(0)) + ")";
     if (stdOpaqueFn(CD)) {
@@ -630,6 +632,16 @@ struct Lower {
     for (auto& rp : roots) r += I + "(" + objLv + ")" + rp.first + ".__cls = " + std::to_string((id << 5) | k++) + "; /* " + D->getQualifiedNameAsString() + " */\n";
     return r;
   }
+  // constructors of classes that are only ever base subobjects in this unit do not need a class id of their own
+  std::map<std::string, const CXXRecordDecl*> clsPlaceholders;
+  std::string setClsPlaceholder(const CXXRecordDecl* D) { D = D->getDefinition(); if (!D->isPolymorphic()) return ""; std::string k = "/*SETCLS:" + rec(D) + "*/\n"; clsPlaceholders[k] = D; return k; }
+  std::string resolveClsPlaceholders(std::string text) {
+    for (auto& kv : clsPlaceholders) {
+      std::string repl = clsIds.count(kv.second) ? setClsStmts(kv.second, "*self", "  ") : "";
+      size_t pos = 0; while ((pos = text.find(kv.first, pos)) != std::string::npos) { text.replace(pos, kv.first.size(), repl); pos += repl.size(); }
+    }
+    return text;
+  }
   struct VStub { const CXXMethodDecl* MD; std::string name, proto, ret; std::vector<std::string> argNames; size_t doneFor = 0; };
   std::vector<VStub> vstubs; std::string dispatchers; std::vector<std::string> dispatchJson;
   std::string adjustUp(const std::string& ptr, const CXXRecordDecl* from, const CXXRecordDecl* to) {
@@ -681,6 +693,15 @@ struct Lower {
     }
   }
   std::map<std::string, std::string> virtStubs; // name -> json
+  void requestDispatcher(const CXXMethodDecl* MD) {
+    std::string n = "__virt_" + mangle(MD);
+    if (virtStubs.count(n)) return;
+    std::string proto = declare(MD->getThisType(), "self"); VStub V; V.MD = MD; V.name = n;
+    unsigned i = 0; for (auto* P : MD->parameters()) { proto += ", " + declare(P->getType(), "a" + std::to_string(i)); V.argNames.push_back("a" + std::to_string(i)); ++i; }
+    V.proto = proto; V.ret = declareAbstract(MD->getReturnType()); vstubs.push_back(V);
+    protos += "/* virtual call stub (requested by the harness): " + MD->getQualifiedNameAsString() + " */ " + V.ret + " " + n + "(" + proto + ");\n";
+    virtStubs[n] = "{\"name\": \"" + n + "\", \"method\": \"" + jsonEsc(MD->getQualifiedNameAsString()) + "\", \"mangled\": \"" + mangle(MD) + "\", \"ret\": \"" + jsonEsc(V.ret) + "\", \"params\": \"" + jsonEsc(proto) + "\"}";
+  }
   std::string virtcall(const CXXMethodDecl* MD, const std::string& self, const CallExpr* X, unsigned first) {
     std::string n = "__virt_" + mangle(MD);
     std::string proto = declare(MD->getThisType(), "self"), callArgs = self;
@@ -999,12 +1020,12 @@ struct Lower {
       bool clsSet = false;
       for (auto* I : CD->inits()) {
         const Expr* Init = I->getInit()->IgnoreImplicit();
-        if (!I->isBaseInitializer() && !clsSet) { b += setClsStmts(CD->getParent(), "*self", "  "); clsSet = true; }
+        if (!I->isBaseInitializer() && !clsSet) { b += setClsPlaceholder(CD->getParent()); clsSet = true; }
         if (I->isBaseInitializer()) {
           auto* BD = QualType(I->getBaseClass(),0)->getAsCXXRecordDecl()->getDefinition();
           int bi = 0, found = -1; for (auto& B : CD->getParent()->bases()) { if (B.getType()->getAsCXXRecordDecl()->getDefinition()==BD) found = bi; bi++; }
           std::string ptr = "(&self->__b" + std::to_string(found) + ")";
-          if (auto* CE = dyn_cast<CXXConstructExpr>(Init)) b += "  " + ctorCall(CE->getConstructor(), ptr, CE) + ";\n";
+          if (auto* CE = dyn_cast<CXXConstructExpr>(Init)) b += "  " + ctorCall(CE->getConstructor(), ptr, CE, true) + ";\n";
           else if (auto* IE = dyn_cast<CXXInheritedCtorInitExpr>(Init)) {
             auto* BC = IE->getConstructor();
             std::string c = "  " + fn(BC) + "(" + ptr;
@@ -1020,7 +1041,7 @@ struct Lower {
           b += initLv(lv, F->getType(), RawInit, "  ");
         }
       }
-      if (!clsSet) b += setClsStmts(CD->getParent(), "*self", "  ");
+      if (!clsSet) b += setClsPlaceholder(CD->getParent());
       b += st(FD->getBody(), 1) + "}\n";
     } else
     b += st(FD->getBody(), 0);
@@ -1039,7 +1060,7 @@ struct Lower {
     }
   }
   void run(const std::vector<const FunctionDecl*>& roots) {
-    for (auto* R : roots) fn(R);
+    for (auto* R : roots) { fn(R); if (auto* CD = dyn_cast<CXXConstructorDecl>(R)) if (CD->getParent()->isPolymorphic()) clsId(CD->getParent()); }
     drain();
     // dispatchers may pull in final overriders, whose bodies may construct new classes and make new virtual calls: iterate
     for (int round = 0; round < 50; ++round) {
@@ -1061,6 +1082,22 @@ struct Finder : RecursiveASTVisitor<Finder> {
   explicit Finder(Lower& l) : L(l) {}
   bool shouldVisitTemplateInstantiations() const { return true; }
   bool shouldVisitImplicitCode() const { return true; }
+  std::vector<std::string> enumJson;
+  bool VisitEnumDecl(EnumDecl* E) {
+    if (!E->isCompleteDefinition()) return true;
+    std::string q = E->getQualifiedNameAsString();
+    if (q.rfind("ipr::", 0) != 0 || q.find("(anonymous") != std::string::npos) return true;
+    for (auto* C : E->enumerators()) enumJson.push_back("{\"name\": \"" + q + "::" + C->getNameAsString() + "\", \"value\": " + llvm::toString(C->getInitVal(), 10) + "}");
+    return true;
+  }
+  std::vector<const CXXMethodDecl*> vroots; std::set<std::string> vhit;
+  bool VisitCXXMethodDecl(CXXMethodDecl* M) {
+    if (VirtualRoots.empty() || !M->isVirtual() || M->isTemplated() || M->getParent()->isDependentContext()) return true;
+    if (M->size_overridden_methods() != 0) return true;                      // only the method that introduces the virtual
+    std::string q = M->getQualifiedNameAsString();
+    for (auto& r : VirtualRoots) if (q == r && !vhit.count(q + "#" + L.mangle(M))) { vhit.insert(q + "#" + L.mangle(M)); vhit.insert("v:" + r); vroots.push_back(M->getCanonicalDecl()); }
+    return true;
+  }
   bool VisitFunctionDecl(FunctionDecl* D) {
     if (!D->doesThisDeclarationHaveABody() || D->isTemplated()) return true;
     if (D->isDefaulted() && !D->isUserProvided() && isa<CXXMethodDecl>(D) && !RootsMangled.size() && !Roots.size() && !RootPrefixes.size()) return true;
@@ -1086,6 +1123,8 @@ struct Cons : ASTConsumer {
     for (auto& r : Roots) if (!F.hit.count("q:" + r)) { llvm::errs() << "MUST-FIRE: root not found: " << r << "\n"; miss = true; }
     for (auto& r : RootPrefixes) if (!F.hit.count("p:" + r)) { llvm::errs() << "MUST-FIRE: root prefix not found: " << r << "\n"; miss = true; }
     for (auto& r : RootsMangled) if (!F.hit.count("m:" + r)) { llvm::errs() << "MUST-FIRE: mangled root not found: " << r << "\n"; miss = true; }
+    for (auto& r : VirtualRoots) if (!F.vhit.count("v:" + r)) { llvm::errs() << "MUST-FIRE: virtual root not found: " << r << "\n"; miss = true; }
+    for (auto* M : F.vroots) L.requestDispatcher(M);
     if (miss || (F.found.empty() && !Catalogue)) { llvm::errs() << "MUST-FIRE: no root found\n"; exit(2); }
     try { L.run(F.found); }
     catch (Unsupported& u) { llvm::errs() << "UNSUPPORTED: " << u.what << " in " << (L.curFn ? L.curFn->getQualifiedNameAsString() : std::string("?")) << "\n"; exit(2); }
@@ -1096,7 +1135,7 @@ struct Cons : ASTConsumer {
     for (auto* D : L.constructed) out += "#define IPR_CLS_" + L.rec(D).substr(1) + " " + std::to_string(L.clsIds[D]) + " /* " + D->getQualifiedNameAsString() + " */\n";
     for (auto& kv : L.fnName) out += "#ifndef CONTRACT_" + kv.second + "\n#define CONTRACT_" + kv.second + "\n#endif\n";
     for (auto& m : L.loopMacros) out += "#ifndef " + m + "\n#define " + m + "\n#endif\n";
-    out += L.structs + "\n" + L.globalDecls + "\n" + L.protos + "\n#ifndef IPR_NO_GLOBAL_DEFS\n" + L.globalDefs + "#endif\n\n" + L.bodies + "\n" + L.dispatchers + "\n" + L.outlined;
+    out += L.structs + "\n" + L.globalDecls + "\n" + L.protos + "\n#ifndef IPR_NO_GLOBAL_DEFS\n" + L.globalDefs + "#endif\n\n" + L.resolveClsPlaceholders(L.bodies) + "\n" + L.dispatchers + "\n" + L.outlined;
     if (OutC.empty()) llvm::outs() << out; else writeFile(OutC, out);
     if (!OutJson.empty()) {
       std::vector<std::string> vs; for (auto& kv : L.virtStubs) vs.push_back(kv.second);
@@ -1104,7 +1143,7 @@ struct Cons : ASTConsumer {
       std::vector<std::string> cs; for (auto& kv : L.calls) { std::string a = "{\"caller\": \"" + kv.first + "\", \"callees\": ["; bool f = true; for (auto& c : kv.second) { a += (f ? "\"" : ", \"") + c + "\""; f = false; } cs.push_back(a + "]}"); }
       std::vector<std::string> lm; for (auto& m : L.loopMacros) lm.push_back("\"" + m + "\"");
       std::vector<std::string> cls; for (auto* D : L.constructed) cls.push_back("{\"id\": " + std::to_string(L.clsIds[D]) + ", \"class\": \"" + Lower::jsonEsc(D->getQualifiedNameAsString()) + "\", \"struct\": \"" + L.rec(D) + "\"}");
-      std::string j = "{\n \"classes\": " + joinJson(cls) + ",\n \"dispatch\": " + joinJson(L.dispatchJson) + ",\n \"functions\": " + joinJson(L.fnJson) + ",\n \"no_body\": " + joinJson(L.noBody) + ",\n \"virtual_stubs\": " + joinJson(vs) + ",\n \"std_stubs\": " + joinJson(L.stdJson)
+      std::string j = "{\n \"enums\": " + joinJson(F.enumJson) + ",\n \"classes\": " + joinJson(cls) + ",\n \"dispatch\": " + joinJson(L.dispatchJson) + ",\n \"functions\": " + joinJson(L.fnJson) + ",\n \"no_body\": " + joinJson(L.noBody) + ",\n \"virtual_stubs\": " + joinJson(vs) + ",\n \"std_stubs\": " + joinJson(L.stdJson)
         + ",\n \"exceptions\": " + joinJson(ex) + ",\n \"globals\": " + joinJson(L.globalJson) + ",\n \"loops\": " + joinJson(lm) + ",\n \"calls\": " + joinJson(cs);
       if (Catalogue) j += ",\n \"catalogue\": " + catalogueJson(C, L);
       j += "\n}\n";
